@@ -200,6 +200,14 @@ func (c *FC) lenOf(v ssa.Value, at ssa.Instruction, plens map[string]int) lenFac
 				if k, ok := constInt(bo.Y); ok && c.term(bo.X, b) == c.term(b.Low, b) {
 					return lenFact{k, k, "window of constant width"}
 				}
+				// x[e+a : e+b]
+				if lo2, ok := b.Low.(*ssa.BinOp); ok && lo2.Op == token.ADD {
+					ka, oka := constInt(lo2.Y)
+					kb, okb := constInt(bo.Y)
+					if oka && okb && kb >= ka && c.term(lo2.X, b) == c.term(bo.X, b) {
+						return lenFact{kb - ka, kb - ka, "window of constant width"}
+					}
+				}
 			}
 		} else if hasLo {
 			inner := c.lenOf(b.X, at, plens)
@@ -209,6 +217,25 @@ func (c *FC) lenOf(v ssa.Value, at ssa.Instruction, plens map[string]int) lenFac
 		}
 	}
 	t := c.x.Of(v, at).String()
+	// dependency fact: crypto.Ecrecover returns a 65-byte uncompressed key whenever its error is nil
+	if ex, ok := v.(*ssa.Extract); ok && ex.Index == 0 {
+		if call, ok := ex.Tuple.(*ssa.Call); ok {
+			if callee := call.Call.StaticCallee(); callee != nil && funcName(callee) == "ethcrypto.Ecrecover" {
+				ct := c.x.Of(call, call).String()
+				for _, ii := range c.p.ifs(c.fn) {
+					if ii.atom.Key == "("+ct+"#1 == nil)" || ii.atom.Key == "(nil == "+ct+"#1)" {
+						slot := 0
+						if !ii.atom.Pol {
+							slot = 1
+						}
+						if edgeEstablished(c.fn, ii.in, slot, at) {
+							return lenFact{65, 65, "crypto.Ecrecover returns 65 bytes when its error is nil (go-ethereum contract)"}
+						}
+					}
+				}
+			}
+		}
+	}
 	// fields produced by the Parse functions
 	for key, w := range plens {
 		parts := strings.SplitN(key, "|", 2)
